@@ -15,7 +15,8 @@ MANIFEST = {
             'flash solvers is the one the object evaluates; the ideal models return 1; every local of every function in the module is assigned on all paths before '
             'it is read (an unassigned read in a numba kernel is a crash at the vertex of a group-less chemical); in the combinatorial terms every c*ln(R) is '
             'paired with -c*R, a necessary condition of the Gibbs-Duhem relation. The composition handed to the group-contribution formulas in both UNIFAC kernels '
-            'has the form v/v.sum(). gamma -> 1, Gibbs-Duhem for the residual part and permutation invariance are numerical and not decided.',
+            'has the form v/v.sum(). The mask from which the positions of the chemicals with group data are taken (np.where) gets exactly one entry per chemical on'
+            ' every path through its loop. gamma -> 1, Gibbs-Duhem for the residual part and permutation invariance are numerical and not decided.',
 }
 
 AC = 'thermosteam/equilibrium/activity_coefficients.py'
